@@ -45,6 +45,7 @@ EarlyFin    == Sq(<<I(1, 0, 0 - 1, 1), Info(1), F>>)
 FinFirst    == Sq(<<F, I(1, 0, 0 - 1, 1)>>)
 JunkMid     == Sq(<<I(1, 0, 0 - 1, 1), Info(1), Junk, C(1, <<>>), PF(1, 1, <<>>, 1), F>>)
 JunkFirst   == <<M(0, Junk)>> \o H1a                      \* unparsable number 0, then the honest stream
+HijackJunk  == <<M(0, Info(1)), M(0, Junk)>> \o H1a       \* a refused number 0, an unparsable one, the honest stream
 BadExec     == Sq(<<I(1, 0, 0 - 1, 1), Info(1), Tx(3), C(1, <<3>>), PF(1, 1, <<3>>, 1), F>>)
 Equivoc     == H1a \o <<M(2, Tx(2))>>                     \* two different parts under number 2
 EquivocGood == H1a \o <<M(2, Tx(2)), M(3, C(1, <<2>>)), M(4, PF(1, 1, <<2>>, 1))>>   \* two full readings
@@ -59,7 +60,7 @@ FutFlood    == Sq(<<I(3, 0, 0 - 1, 1), Info(1), Tx(1), Tx(1), Tx(2)>>)       \* 
 HonestSet == {H1a, H1b, H1e, H2a, H2b, E1, E2}
 GrammarSet == {NoInit, TwoInits, InfoAfterTx, BadCommit, BadCommitI, BadFin, BadFinH, Gap, EarlyFin, FinFirst,
                JunkMid, BadExec, EmptyBad, EmptyThenTx}
-TrickSet == {Hijack, HijackBad, JunkFirst, ReFin, AfterFin, Equivoc, EquivocGood}
+TrickSet == {Hijack, HijackBad, JunkFirst, HijackJunk, ReFin, AfterFin, Equivoc, EquivocGood}
 FloodSet == {Flood, FarSeq, DeadFlood, PastFlood, FutFlood}
 
 MCStreams == {1, 2}
@@ -68,16 +69,24 @@ Two(A, B) == [s \in MCStreams |-> IF s = 1 THEN A ELSE B]
 ChGram1 == Two({H1e, H2b}, {NoInit, TwoInits, BadCommit, BadFin, EarlyFin})
 ChGram2 == Two({H1e, H2b}, {InfoAfterTx, BadCommitI, BadFinH, Gap, FinFirst})
 ChGram3 == Two({H1e, H2b}, {JunkMid, BadExec, EmptyBad, EmptyThenTx})
-ChTrick1 == Two({H1e, H2b}, {Hijack, HijackBad, JunkFirst})
-ChTrick2 == Two({H1e, H2b}, {ReFin, AfterFin, Equivoc, EquivocGood})
+ChTrick1 == Two({H1e, H2b}, {Hijack, HijackBad, JunkFirst, HijackJunk})
+ChTrick2 == Two({H1e}, {ReFin, AfterFin, Equivoc})
+ChTrick3 == Two({H2b}, {ReFin, Equivoc})
 ChFlood  == Two({H1e, H2b}, FloodSet)
 ChHon    == Two({H1b, E1}, {H1e, H2b, E2})
 (* quick tier *)
 ChQ1 == Two({H2b}, {NoInit, BadFin, EarlyFin, EmptyBad})
-ChQ2 == Two({H1e}, {Hijack, ReFin, Flood, DeadFlood, PastFlood})
+ChQ2 == Two({H1e}, {Hijack, Flood, PastFlood})
+ChOut0 == Two({H1e, H2b}, {E1, ReFin})
 (* liveness *)
-ChL1 == Two({H1e, H2b}, {NoInit, Hijack, ReFin, BadFin})
-ChL2 == Two({H1e, H2b}, {Flood, DeadFlood, PastFlood, FutFlood})
+ShortHijack == <<M(0, Info(1))>> \o E1                  \* (short scripts: liveness checking is expensive)
+ShortReFin  == E1 \o <<M(Len(E1), F)>>
+ChL1 == Two({H1e}, {NoInit, BadFin})
+ChL2 == Two({H1e}, {ShortHijack})
+ChL3 == Two({H1e}, {ShortReFin})
+ChL4 == Two({H1e}, {Flood, DeadFlood})
+ChL5 == Two({H2b}, {PastFlood, FutFlood})
+ChLq == Two({H1e}, {Flood, EarlyFin})
 ChOne == [s \in {1} |-> HonestSet \cup GrammarSet \cup TrickSet \cup FloodSet]
 ChOneQ == [s \in {1} |-> {H1a, H2b, E1, NoInit, BadCommit, BadFin, Gap, ReFin, Hijack, Equivoc, Flood, FarSeq, PastFlood}]
 (* expected violations *)
@@ -85,6 +94,7 @@ ChXNil   == Two({H1e}, {Hijack})
 ChXBlock == Two({H1e}, {Flood})
 ChXFut   == Two({H2b}, {FutFlood})
 ChXReFin == Two({H1e}, {ReFin})
+ChXReFin1 == [s \in {1} |-> {ReFin}]
 ChXBuf   == Two({H1e}, {FarSeq})
 ChXPast  == Two({H1e}, {PastFlood})
 ChXCommit == Two({H1e}, {BadCommit})
